@@ -47,7 +47,8 @@ def ev_paths(ev):
 
 
 def mk_events(kind):
-    enc = (lambda s: s) if kind == "str" else (lambda s: s.encode())
+    # bytes paths: one name carries a byte that is not valid in the file system encoding (surrogateescape on decoding)
+    enc = (lambda s: s) if kind == "str" else (lambda s: s.encode().replace(b"b.PY", b"b\xe9.PY"))
     evs = []
     for c in CLASSES:
         if "Moved" in c.__name__:
@@ -95,6 +96,8 @@ def check_pattern(ev, inc, exc, cs, igd, hl=None):
         got_exc = False
     except ValueError:
         got_exc = True
+    except Exception as e:  # noqa: BLE001
+        return f"pattern dispatch {ev!r} inc={inc} exc={exc} cs={cs} igd={igd}: raised {e!r}"
     if got_exc != want_exc:
         return f"pattern dispatch {ev!r} inc={inc} exc={exc} cs={cs} igd={igd}: ValueError raised={got_exc}, expected={want_exc}"
     if not want_exc and log != want:
@@ -113,7 +116,10 @@ def check_regex(ev, rx, irx, cs, igd, hl=None):
         ps = ev_paths(ev)
         if not any(r.match(p) for r in irxs for p in ps) and any(r.match(p) for r in rxs for p in ps):
             want = [("on_any_event", ev), (CB[type(ev).__name__], ev)]
-    h.dispatch(ev)
+    try:
+        h.dispatch(ev)
+    except Exception as e:  # noqa: BLE001
+        return f"regex dispatch {ev!r} rx={rx} irx={irx} cs={cs} igd={igd}: raised {e!r}"
     if log != want:
         return f"regex dispatch {ev!r} rx={rx} irx={irx} cs={cs} igd={igd}: callbacks {[m for m, _ in log]} expected {[m for m, _ in want]}"
     return None
@@ -163,16 +169,54 @@ def check_history(kind, cfg, evs):
 
 
 def mk_ev(d, bytes_=False):
-    enc = (lambda x: x.encode()) if bytes_ else (lambda x: x)
+    enc = (lambda x: os.fsencode(x)) if bytes_ else (lambda x: x)
     cls = getattr(E, d["cls"])
     return cls(enc(d["src"]), enc(d["dest"])) if "Moved" in d["cls"] else cls(enc(d["src"]))
 
 
+def check_inheritance(base_cls, kw):
+    """the on_<type> callback that runs is the one of the handler's own class - whichever handler classes dispatched before"""
+    log = []
+
+    class A(base_cls):
+        def on_created(self, ev):
+            log.append("A.on_created")
+
+        def on_moved(self, ev):
+            log.append("A.on_moved")
+
+    class B(A):
+        def on_created(self, ev):
+            log.append("B.on_created")
+
+    class C2(base_cls):
+        pass
+    out = []
+    evc, evm = E.FileCreatedEvent("a.py"), E.FileMovedEvent("a.py", "d/a.py")
+    for order in ((A, B, A), (B, A, B), (C2, A, B)):
+        hs = [c(**kw) for c in order]
+        inst = hs[-1]
+        inst.on_created = lambda ev: log.append("instance.on_created")     # a callback assigned on the instance wins
+        for h in hs:
+            del log[:]
+            h.dispatch(evc)
+            h.dispatch(evm)
+            want = ["instance.on_created" if h is inst else (type(h).__name__ + ".on_created" if type(h) is not C2 else None), ("A.on_moved" if isinstance(h, A) else None)]
+            want = [w for w in want if w]
+            if log != want:
+                out.append(f"{base_cls.__name__}: handler classes dispatched in the order {[c.__name__ for c in order]}: a {type(h).__name__} handler ran {log}, expected {want}")
+                return out
+    return out
+
+
 def replay(c):
     k = c["kind"]
+    if k == "inheritance":
+        base = getattr(E, c["base"])
+        return (check_inheritance(base, {}) or [None])[0]
     if k == "history":
         return check_history(c["handler"], tuple(c["cfg"]), [mk_ev(d, d.get("bytes", False)) for d in c["events"]])
-    enc = (lambda s: s) if c.get("bytes") is not True else (lambda s: s.encode())
+    enc = (lambda s: s) if c.get("bytes") is not True else (lambda s: os.fsencode(s))
     if k == "filter":
         return check_filter(c["paths"], c["inc"], c["exc"], c["cs"])
     cls = getattr(E, c["cls"])
@@ -185,7 +229,7 @@ def replay(c):
 
 
 def desc(ev, bytes_):
-    dec = (lambda s: s.decode() if isinstance(s, bytes) else s)
+    dec = (lambda s: os.fsdecode(s) if isinstance(s, bytes) else s)   # surrogateescape: survives names that are not valid UTF-8
     return {"cls": type(ev).__name__, "src": dec(ev.src_path), "dest": dec(ev.dest_path), "bytes": bytes_}
 
 
@@ -229,6 +273,11 @@ def main():
             r = check_history(kind, cfg, [a, b])
             if r:
                 bat.fail("C15.history-independence", r, {"kind": "history", "handler": kind, "cfg": list(cfg), "events": [desc(a, False), desc(b, False)]}, "PatternMatchingEventHandler.dispatch")
+    for base in (E.FileSystemEventHandler, E.PatternMatchingEventHandler, E.RegexMatchingEventHandler):
+        bat.case(("inheritance", base.__name__))
+        pr = check_inheritance(base, {})
+        if pr:
+            bat.fail("C15.callback-of-the-handler's-own-class", pr[0], {"kind": "inheritance", "base": base.__name__}, "FileSystemEventHandler.dispatch")
     plists = [[], ["a"], ["a.py", "A"], ["d/a.py", "b.PY", "a"], ["A", "a", "A"]]
     for paths, inc, exc, cs in itertools.product(plists, pls, pls, (True, False)):
         bat.case(("filter", str(paths), str(inc), str(exc), cs))
